@@ -1517,3 +1517,10 @@ FUNCTIONS += [
          pre=PLUMB_DROP + [(r'new handler\(h\)', 'NEW_HANDLER(h)')],
          header=r'set_return\(\s*std::true_type,\s*T&& h\)'),
 ]
+
+# the matcher printers that hold user-supplied expected values: how each value reaches the stream (C18, finding F15)
+FUNCTIONS += [
+    dict(name='range_printers', cxx='the *_printer structs of matcher/range.hpp', file=RANGE, kind='printers', module='RangePrinters', header=''),
+    dict(name='set_predicate_printers', cxx='the *_printer structs of matcher/set_predicate.hpp', file=SETP, kind='printers',
+         module='SetPredicatePrinters', header=''),
+]
